@@ -2208,7 +2208,7 @@ func (r *Resolvable) renderInaccessibleEnumValueError(e *Enum) {
 	_, _ = buf.WriteString("Invalid value found for ")
 	pathLength := len(r.path)
 	// The enum is an array element
-	if pathLength > 1 && r.path[pathLength-1].Name == "" {
+	if pathLength > 1 && r.path[pathLength-1].Name == "" && len(e.Path) == 0 {
 		r.writeArrayElementToBuffer(buf, e.TypeName)
 		if r.options.ApolloCompatibilityValueCompletionInExtensions {
 			r.addValueCompletion(buf.String(), errorcodes.InvalidGraphql)
